@@ -441,3 +441,27 @@ HARNESSES += [
     _h("c16_bytes_envelope", h_bytes_envelope, "{content, encoding} object: hex content of 0..2 symbolic bytes; any content of 0..4 printable characters x {hex, base64}; serde derive = Ok(envelope)|Err"),
     _h("c16_value_kinds", h_kinds, "JSON kinds {null, bool, number in [i64::MIN, u64::MAX], array, string} x 11 target types"),
 ]
+
+
+def h_non_ascii(ctx, tier, seed):
+    """text with multi-byte UTF-8 characters at every offset 0..3 (2-, 3- and 4-byte characters,
+    optionally behind ASCII characters) for every textual target type and as envelope content:
+    Ok or Err, never a panic (slicing a str off a char boundary panics)"""
+    eng = ctx.eng
+    chars = [[0xC3, 0xA9], [0xE2, 0x82, 0xAC], [0xF0, 0x9F, 0x98, 0x80]]      # é, €, an emoji
+    ch = chars[eng.choose(3, "character")]
+    npre = eng.choose(4, "ASCII characters before it")
+    pre = [ctx.sym_int("c%d" % i, "u8") for i in range(npre)]
+    for c in pre:
+        printable(eng, c)
+    s = pre + ch
+    target = ["Int", "Bytes", "Address", "UtxoRef", "Bool", "Undefined"][eng.choose(6, "target type")]
+    r = call_from_json(ctx, jstr(eng, s), target)
+    if r is None:
+        return
+    ctx.require(True, "from_json returns")
+    if r.variant == "Ok" and target not in ("Undefined", "Address"):
+        ctx.violation("text with a non-ASCII character accepted as %s" % target, shape="ill-formed %s text accepted" % target.lower())
+
+
+HARNESSES.append(_h("c16_non_ascii", h_non_ascii, "0..3 printable ASCII characters followed by a 2-, 3- or 4-byte UTF-8 character x 6 target types"))
